@@ -250,3 +250,126 @@ func baseNameInputs(r *core.RNG, tier string) []Input {
 	add(baseNames[4+r.Intn(len(baseNames)-4)], 1)
 	return out
 }
+
+// ---- fields declared through aliases ----
+//
+// Added with the finding alias_container_field_shared (fixes/C17-alias-container-field.diff): createFieldSnippet switched
+// on the DECLARED field type; `type Labels = map[string]string` is a *types.Alias there, fell into the default branch and
+// the field was assigned - copy and original shared the map.  An alias and the type it denotes are identical types: what is
+// generated for a field must not depend on whether its type is written through an alias.  Family: aliases of slice / map /
+// scalar types, of same-package structs, defined maps, defined scalars, instantiated generic structs, of error and
+// time.Duration, of another alias; declared in the same package and in a sibling package (ext); in the tagged root and
+// in an untagged dependency.
+func aliasDecl(name string, of Field) Decl { return Decl{Name: name, Kind: DAlias, Of: &of} }
+func fa(name, alias string) Field          { return Field{Name: name, K: KAlias, A: alias} }
+
+// aliasProbe: the package of the report
+func aliasProbe(seed uint64) Input {
+	return Input{Seed: seed, Decls: []Decl{
+		aliasDecl("Labels", fm("", "string", "string")), aliasDecl("Names", fsl("", "string")),
+		st("T", true, fa("Labels", "Labels"), fa("Names", "Names"), fm("Plain", "string", "string")),
+	}}
+}
+
+// aliasFamilyInput: pct = the share of the candidate fields that is taken (100: all of them)
+func aliasFamilyInput(r *core.RNG, pct int, seed uint64) Input {
+	decls := []Decl{
+		aliasDecl("Labels", fm("", "string", "string")), aliasDecl("Names", fsl("", "string")), aliasDecl("Count", fb("", "int")),
+		st("Dep", false, fsl("S", "int"), fm("M", "string", "bool")), aliasDecl("DepA", fn("", "Dep")),
+		{Name: "NM", Kind: DMap, Key: "string", Elem: "int"}, aliasDecl("NMA", fn("", "NM")),
+		{Name: "Lvl", Kind: DScalar, Base: "int32"}, aliasDecl("LvlA", fn("", "Lvl")),
+		{Name: "Box", Kind: DStruct, TParams: []string{"T"}, Fields: []Field{fp("V", KTParam, "T"), fsl("S", "int")}}, aliasDecl("IntBox", fn("", "Box", "int")),
+		aliasDecl("L2", fa("", "Labels")), aliasDecl("Span", fk("", KForeign)), aliasDecl("Err", fk("", KError)),
+	}
+	cands := []Field{fa("Labels", "Labels"), fa("Names", "Names"), fa("C", "Count"), fa("D", "DepA"), fa("M", "NMA"), fa("L", "LvlA"),
+		fa("B", "IntBox"), fa("LL", "L2"), fa("Sp", "Span"), fa("E", "Err"), fa("X", "ext.Items"), fa("W", "ext.Words"), fa("Y", "ext.Index"),
+		fa("Fl", "ext.Flags"), fa("Z", "ext.Count"), fa("V", "ext.Span")}
+	take := func() []Field {
+		var fs []Field
+		for _, c := range shuffled2(r, cands) {
+			if r.Chance(pct) {
+				fs = append(fs, c)
+			}
+		}
+		if len(fs) == 0 {
+			fs = append(fs, core.Pick(r, cands[:2]))
+		}
+		return fs
+	}
+	mid := st("Mid", false, take()...)
+	mid.Fields = append(mid.Fields, fsl("Own", "float64"))
+	root := st("Root", true, take()...)
+	root.Fields = append(root.Fields, fm("Plain", "string", "string"))
+	at := r.Intn(len(root.Fields) + 1)
+	root.Fields = append(root.Fields[:at], append([]Field{fn("Mid", "Mid")}, root.Fields[at:]...)...)
+	decls = append(decls, mid, root)
+	for i := len(decls) - 1; i > 0; i-- {
+		j := r.Intn(i + 1)
+		decls[i], decls[j] = decls[j], decls[i]
+	}
+	return Input{Seed: seed, Decls: decls}
+}
+
+func shuffled2(r *core.RNG, xs []Field) []Field {
+	ys := append([]Field(nil), xs...)
+	for i := len(ys) - 1; i > 0; i-- {
+		j := r.Intn(i + 1)
+		ys[i], ys[j] = ys[j], ys[i]
+	}
+	return ys
+}
+
+// aliasify: the same type graph with a share of the fields declared through a fresh same-package alias of their type
+func aliasify(r *core.RNG, in Input, pct int) Input {
+	used := map[string]bool{"Object": true, "Keep": true}
+	for _, d := range in.Decls {
+		used[d.Name] = true
+	}
+	var added []Decl
+	for i := range in.Decls {
+		d := &in.Decls[i]
+		if d.Kind != DStruct {
+			continue
+		}
+		fs := append([]Field(nil), d.Fields...)
+		for j, f := range fs {
+			switch f.K {
+			case KBasic, KSlice, KMap, KNamed, KError, KForeign:
+			default:
+				continue // a type parameter cannot be aliased outside its struct; any / interface{} stay as they are
+			}
+			if len(d.TParams) > 0 && f.K == KNamed && len(f.Args) > 0 {
+				continue
+			}
+			if !r.Chance(pct) {
+				continue
+			}
+			name := ""
+			for name == "" || used[name] {
+				name = fmt.Sprintf("Al%c%d", 'A'+rune(r.Intn(26)), r.Intn(100))
+			}
+			used[name] = true
+			of := f
+			of.Name = ""
+			added = append(added, aliasDecl(name, of))
+			fs[j] = fa(f.Name, name)
+		}
+		d.Fields = fs
+	}
+	in.Decls = append(append([]Decl(nil), in.Decls...), added...)
+	return in
+}
+
+// aliasInputs: quick = the probe, the package with every alias kind, four random subsets; thorough adds thirty.
+// (A quarter of the random stream is aliasified as well: see Generate.)
+func aliasInputs(r *core.RNG, tier string) []Input {
+	out := []Input{aliasProbe(r.Uint64() % 1000000), aliasFamilyInput(r.Fork(), 100, r.Uint64()%1000000)}
+	n := 4
+	if tier == "thorough" {
+		n = 34
+	}
+	for i := 0; i < n; i++ {
+		out = append(out, aliasFamilyInput(r.Fork(), 25+r.Intn(50), r.Uint64()%1000000))
+	}
+	return out
+}
